@@ -173,3 +173,37 @@ def prop_adapterhist(k, iv, d, k2, d2):
     if r3 != refaes.zero_pad(data):
         return "FAIL decrypt after other calls differs"
     return "ok"
+
+
+@op("prop.aesmode")
+def prop_aesmode(kind, k, iv, ctr, seg, d, cuts, direction):
+    """one message through a pyaes mode object in chunks = the SP 800-38A mode over the independent AES on the whole message"""
+    key, data, seg, ctr = unhx(k), unhx(d), int(seg), int(ctr)
+    ivb = None if iv == "none" else unhx(iv)
+    dec = direction == "dec"
+    unit = {"ecb": 16, "cbc": 16, "cfb": seg, "ofb": 1, "ctr": 1}[kind]
+    data = data[: len(data) - len(data) % unit]
+    if kind == "ecb":
+        m = pyaes_aes.AESModeOfOperationECB(key)
+    elif kind == "cbc":
+        m = pyaes_aes.AESModeOfOperationCBC(key, ivb)
+    elif kind == "cfb":
+        m = pyaes_aes.AESModeOfOperationCFB(key, ivb, seg)
+    elif kind == "ofb":
+        m = pyaes_aes.AESModeOfOperationOFB(key, ivb)
+    else:
+        m = pyaes_aes.AESModeOfOperationCTR(key, pyaes_aes.Counter(ctr))
+    # chunk boundaries: multiples of the unit; ECB/CBC take exactly one block per call
+    if kind in ("ecb", "cbc"):
+        bounds = list(range(0, len(data) + 1, 16))
+    else:
+        pts = sorted({0, len(data)} | {int(c) % (len(data) // unit + 1) * unit for c in cuts.split(",") if c and c != "-"})
+        bounds = pts
+    got = bytearray()
+    for a, b in zip(bounds, bounds[1:]):
+        got += bytes((m.decrypt if dec else m.encrypt)(data[a:b]))
+    want = refaes.mode_stream(kind, key, ivb or bytes(16), ctr, seg, data, dec)
+    if bytes(got) != want:
+        n = next(i for i, (x, y) in enumerate(zip(got, want)) if x != y) if len(got) == len(want) else min(len(got), len(want))
+        return f"FAIL {kind} {direction} differs from SP 800-38A at byte {n} (counter {ctr:#x}, {len(data)} bytes, chunks at {bounds})"
+    return "ok"
